@@ -257,36 +257,7 @@ func runC11(c *Ctx) {
 			c.Bad("C11.3", fname(dec), "Decode", w.pos(dec.Pos()), bad)
 		}
 	}
-	{
-		wh := w.Func("proto", "ChannelData", "WriteHeader")
-		c.Anchor("C11.3", "WriteHeader")
-		okNum, okLen := false, false
-		w.eachInstr(wh, func(in ssa.Instruction) {
-			call, ok := in.(*ssa.Call)
-			if !ok || call.Call.StaticCallee() == nil || call.Call.StaticCallee().Name() != "PutUint16" {
-				return
-			}
-			_, lo, hi := sliceRange(call.Call.Args[1])
-			val := stripConv(call.Call.Args[2])
-			if lo == 0 && hi == 2 {
-				if _, f, isL := fieldLoad(val); isL && f.Name() == "Number" {
-					okNum = true
-				}
-			}
-			if lo == 2 && hi == 4 {
-				if t := termOf(val); t.Len {
-					if _, f, isL := fieldLoad(t.V); isL && f.Name() == "Data" {
-						okLen = true
-					}
-				}
-			}
-		})
-		if okNum && okLen {
-			c.OK("C11.3", fname(wh), "WriteHeader", w.pos(wh.Pos()), "Raw[0:2] = Number, Raw[2:4] = len(Data)")
-		} else {
-			c.Bad("C11.3", fname(wh), "WriteHeader", w.pos(wh.Pos()), fmt.Sprintf("header fields are not Number (%v) and len(Data) (%v)", okNum, okLen))
-		}
-	}
+	ruleChannelHeaderWritten(c, "C11.3")
 	{
 		enc := w.Func("proto", "ChannelData", "Encode")
 		rawF := w.Field("proto", "ChannelData", "Raw")
@@ -686,4 +657,40 @@ func outsideDecoderRange(w *World, call *ssa.Call, h *ssa.Function, r *ssa.Retur
 		return true
 	}
 	return edgeOK(b, 0)
+}
+
+// ruleChannelHeaderWritten: the ChannelData header carries the channel number as it is
+// (uint16(Number) into Raw[0:2]) and the payload length in its own 16 bits — a combined wider
+// write would let length bits spill into the number (C11.3; shared with C08: the number seen on
+// the wire is the number bound).
+func ruleChannelHeaderWritten(c *Ctx, rule string) {
+	w := c.W
+	wh := w.Func("proto", "ChannelData", "WriteHeader")
+	c.Anchor(rule, "WriteHeader")
+	okNum, okLen := false, false
+	w.eachInstr(wh, func(in ssa.Instruction) {
+		call, ok := in.(*ssa.Call)
+		if !ok || call.Call.StaticCallee() == nil || call.Call.StaticCallee().Name() != "PutUint16" {
+			return
+		}
+		_, lo, hi := sliceRange(call.Call.Args[1])
+		val := stripConv(call.Call.Args[2])
+		if lo == 0 && hi == 2 {
+			if _, f, isL := fieldLoad(val); isL && f.Name() == "Number" {
+				okNum = true
+			}
+		}
+		if lo == 2 && hi == 4 {
+			if t := termOf(val); t.Len {
+				if _, f, isL := fieldLoad(t.V); isL && f.Name() == "Data" {
+					okLen = true
+				}
+			}
+		}
+	})
+	if okNum && okLen {
+		c.OK(rule, fname(wh), "WriteHeader", w.pos(wh.Pos()), "Raw[0:2] = Number, Raw[2:4] = len(Data)")
+	} else {
+		c.Bad(rule, fname(wh), "WriteHeader", w.pos(wh.Pos()), fmt.Sprintf("header fields are not Number (%v) and len(Data) (%v)", okNum, okLen))
+	}
 }
